@@ -268,6 +268,11 @@ func spvConcretise(v *spvVec, now time.Time, rng *rand.Rand) *spvCase {
 		c.assnIDs = append(c.assnIDs, id)
 		var confs []ConfSpec
 		for _, cf := range a.Confs {
+			if cf.Recip == "nodata" { // a SubjectConfirmation without SubjectConfirmationData
+				confs = append(confs, ConfSpec{NoData: true,
+					Method: map[string]string{"hok": "urn:oasis:names:tc:SAML:2.0:cm:holder-of-key", "sv": "urn:oasis:names:tc:SAML:2.0:cm:sender-vouches", "none": "-"}[cf.M]})
+				continue
+			}
 			confs = append(confs, ConfSpec{Recipient: concStr(cf.Recip, spACS, rng), InResponseTo: irt(cf.Irt),
 				NotOnOrAfter: inst(cf.Nooa, time.Minute, -time.Hour),
 				Method:       map[string]string{"hok": "urn:oasis:names:tc:SAML:2.0:cm:holder-of-key", "sv": "urn:oasis:names:tc:SAML:2.0:cm:sender-vouches", "none": "-"}[cf.M]})
